@@ -1188,27 +1188,34 @@ Section Necessity.
 End Necessity.
 
 (* D18, in general: a short or long day whose date label cannot be resolved makes _get_dst_indices fail *)
-Lemma day_count_observed : forall d k, observed_clock d k -> kind_ok k = true -> day_count as_coded d = rows_expected k.
+(* the clock pattern, with usage on every row when non-null usage is what is counted *)
+Definition counted_clock (pol : policy) (d : day) (k : daykind) : Prop :=
+  hours d = clock_hours k /\ (count_rows pol = false -> forallb hs_obs (d_rows d) = true).
+
+Lemma day_count_counted : forall pol d k, counted_clock pol d k -> kind_ok k = true -> day_count pol d = rows_expected k.
 Proof.
-  intros d k (Hh & Ho) Hk. unfold day_count, count_obs. cbn [count_rows as_coded]. rewrite (filter_all _ _ _ Ho).
-  rewrite <- (clock_hours_length k Hk), <- Hh. unfold hours. rewrite map_length. reflexivity.
+  intros pol d k (Hh & Ho) Hk. unfold day_count, count_obs.
+  assert (E : length (d_rows d) = rows_expected k).
+  { rewrite <- (clock_hours_length k Hk), <- Hh. unfold hours. rewrite map_length. reflexivity. }
+  destruct (count_rows pol); [exact E|]. rewrite (filter_all _ _ _ (Ho eq_refl)). exact E.
 Qed.
 
 Definition bad_label (want : daykind -> bool) (dk : day * daykind) : Prop := want (snd dk) = true /\ d_loc (fst dk) <> None.
 Definition is_short (k : daykind) : bool := match k with Short _ => true | _ => false end.
 Definition is_long (k : daykind) : bool := match k with Long _ => true | _ => false end.
 
-Lemma interp_loop_bad_label : forall days pat, Forall2 observed_clock days pat -> forallb kind_ok pat = true ->
+Lemma interp_loop_bad_label : forall pol, loc_by_mask pol = false ->
+  forall days pat, Forall2 (counted_clock pol) days pat -> forallb kind_ok pat = true ->
   Exists (bad_label is_short) (combine days pat) ->
-  forall i last, exists e, interp_loop as_coded i days last = Err e.
+  forall i last, exists e, interp_loop pol i days last = Err e.
 Proof.
-  intros days pat H. induction H as [|d k days pat Hd Hr IH]; intros Hk Hex i last; [inversion Hex|].
+  intros pol Hpol days pat H. induction H as [|d k days pat Hd Hr IH]; intros Hk Hex i last; [inversion Hex|].
   cbn [forallb] in Hk. apply andb_true_iff in Hk. destruct Hk as [Hk1 Hk2].
-  cbn [interp_loop]. rewrite (day_count_observed d k Hd Hk1). cbn [combine] in Hex.
+  cbn [interp_loop]. rewrite (day_count_counted pol d k Hd Hk1). cbn [combine] in Hex.
   destruct k as [|h|h]; cbn [rows_expected].
   - change (24 =? 23) with false. cbv iota. apply IH; [exact Hk2|].
     inversion Hex as [? ? [Hb _]|]; subst; [discriminate Hb | assumption].
-  - change (23 =? 23) with true. cbv iota. unfold day_loc. cbn [loc_by_mask as_coded].
+  - change (23 =? 23) with true. cbv iota. unfold day_loc. rewrite Hpol.
     destruct (d_loc d) as [e|] eqn:El; [eexists; reflexivity|].
     destruct Hd as (Hh & _). unfold missing_hours. rewrite Hh. cbn [kind_ok] in Hk1. apply Nat.ltb_lt in Hk1.
     rewrite (missing_short h Hk1).
@@ -1219,19 +1226,20 @@ Proof.
     inversion Hex as [? ? [Hb _]|]; subst; [discriminate Hb | assumption].
 Qed.
 
-Lemma mean_loop_bad_label : forall days pat, Forall2 observed_clock days pat -> forallb kind_ok pat = true ->
+Lemma mean_loop_bad_label : forall pol, loc_by_mask pol = false ->
+  forall days pat, Forall2 (counted_clock pol) days pat -> forallb kind_ok pat = true ->
   Exists (bad_label is_long) (combine days pat) ->
-  forall i last, exists e, mean_loop as_coded i days last = Err e.
+  forall i last, exists e, mean_loop pol i days last = Err e.
 Proof.
-  intros days pat H. induction H as [|d k days pat Hd Hr IH]; intros Hk Hex i last; [inversion Hex|].
+  intros pol Hpol days pat H. induction H as [|d k days pat Hd Hr IH]; intros Hk Hex i last; [inversion Hex|].
   cbn [forallb] in Hk. apply andb_true_iff in Hk. destruct Hk as [Hk1 Hk2].
-  cbn [mean_loop]. rewrite (day_count_observed d k Hd Hk1). cbn [combine] in Hex.
+  cbn [mean_loop]. rewrite (day_count_counted pol d k Hd Hk1). cbn [combine] in Hex.
   destruct k as [|h|h]; cbn [rows_expected].
   - change (24 =? 25) with false. cbv iota. apply IH; [exact Hk2|].
     inversion Hex as [? ? [Hb _]|]; subst; [discriminate Hb | assumption].
   - change (23 =? 25) with false. cbv iota. apply IH; [exact Hk2|].
     inversion Hex as [? ? [Hb _]|]; subst; [discriminate Hb | assumption].
-  - change (25 =? 25) with true. cbv iota. unfold day_loc. cbn [loc_by_mask as_coded].
+  - change (25 =? 25) with true. cbv iota. unfold day_loc. rewrite Hpol.
     destruct (d_loc d) as [e|] eqn:El; [eexists; reflexivity|].
     destruct Hd as (Hh & _). rewrite Hh. cbn [kind_ok] in Hk1. apply Nat.ltb_lt in Hk1.
     rewrite (first_repeat_long h Hk1).
@@ -1240,17 +1248,18 @@ Proof.
     destruct (IH Hk2 Hex' (S i) (Some h)) as [e E]. rewrite E. exists e. reflexivity.
 Qed.
 
-Lemma get_dst_indices_bad_label : forall days pat, Forall2 observed_clock days pat -> forallb kind_ok pat = true ->
+Lemma get_dst_indices_bad_label : forall pol, loc_by_mask pol = false ->
+  forall days pat, Forall2 (counted_clock pol) days pat -> forallb kind_ok pat = true ->
   Exists (bad_label is_change) (combine days pat) ->
-  exists e, get_dst_indices as_coded days = Err e.
+  exists e, get_dst_indices pol days = Err e.
 Proof.
-  intros days pat H Hk Hex. unfold get_dst_indices.
+  intros pol Hpol days pat H Hk Hex. unfold get_dst_indices.
   assert (Hsplit : Exists (bad_label is_short) (combine days pat) \/ Exists (bad_label is_long) (combine days pat)).
   { clear H Hk. induction Hex as [[d k] l [Hc Hb]|x l _ IH].
     - destruct k as [|h|h]; [discriminate Hc | left | right]; constructor; split; try reflexivity; exact Hb.
     - destruct IH as [IH|IH]; [left | right]; apply Exists_cons_tl; exact IH. }
-  destruct (interp_loop as_coded 0 days None) as [[interp last]|e] eqn:E1; [|eexists; reflexivity].
+  destruct (interp_loop pol 0 days None) as [[interp last]|e] eqn:E1; [|eexists; reflexivity].
   cbn [bind]. destruct Hsplit as [Hs|Hl].
-  - destruct (interp_loop_bad_label days pat H Hk Hs 0 None) as [e E]. congruence.
-  - destruct (mean_loop_bad_label days pat H Hk Hl 0 last) as [e E]. rewrite E. eexists. reflexivity.
+  - destruct (interp_loop_bad_label pol Hpol days pat H Hk Hs 0 None) as [e E]. congruence.
+  - destruct (mean_loop_bad_label pol Hpol days pat H Hk Hl 0 last) as [e E]. rewrite E. eexists. reflexivity.
 Qed.
